@@ -395,7 +395,7 @@ theorem all_orfs_complete_linear (rec : Seq) (start «end» minLen pad : Int) (g
   have := this genes start a hm
   omega
 
-/-! ### 6. `get_trimmed_orf` (tree with fixes/D56: new location by C09's exon walk) -/
+/-! ### 6. `get_trimmed_orf` (tree with fixes/D57: new location by C09's exon walk) -/
 
 /-- the start chosen is a start codon of the (not upper-cased) ORF, lies in the search range
     `[max(0, n − 3⌊max/3⌋), min(n − min, include))`, is in that range's frame, and is the last such;
@@ -475,7 +475,7 @@ example : crossOriginIntergenic [(40, 60, []), (0, 20, [])] 60 6 0 = some [(-20,
 /-- why completeness speaks of `Beside`: a gene shorter than twice the padding has an empty core, the
     loop still cuts its areas there, and the (entirely clear) stretch [0, 200) is in no single area -/
 example : findIntergenic 0 200 [⟨95, 114⟩] 0 10 = [(0, 105), (104, 200)] := by decide
-/-- trimming an origin-crossing ORF (D56): ring of 30, ORF = [20,30) + [0,8), latest start at 6 -/
+/-- trimming an origin-crossing ORF (D57): ring of 30, ORF = [20,30) + [0,8), latest start at 6 -/
 example : trimmedOrf "ATGAAAGTGCCCGGGTAA".toList (.compound [⟨20, 30, .fwd⟩, ⟨0, 8, .fwd⟩]) none 0 none
     = .found (.compound [⟨26, 30, .fwd⟩, ⟨0, 8, .fwd⟩]) := by decide
 example : sortedByStart [⟨0, 110⟩, ⟨50, 105⟩] := (sortedByStartB_iff _).1 (by decide)
